@@ -1,7 +1,7 @@
 LIBS = ["libvpsc", "libavoid"]
 HARNESS = "harness/c01.cpp"
 DRIVER_MODE = "c01"
-LEAN_MODULES = ["AdaptaVerif.Props.C01"]
+LEAN_MODULES = ["AdaptaVerif.Props.C01", "AdaptaVerif.Props.C01Tie"]
 LEVEL = "proof"
 LEVEL_TEXT = ("Machine-checked (Lean 4, no sorry, axioms propext/Classical.choice/Quot.sound) for the incremental "
               "solver's Rat model, over all histories of IncSolver(vs,cs) / addConstraint / change-desired / satisfy / "
@@ -50,6 +50,15 @@ EXPLANATION = ("SPECFAIL: an unflagged constraint violated beyond tolerance, a n
 
 
 import os
+
+
+def regenerate(ROOT, REPO):
+    """the arithmetic kernels of libvpsc (Variable::position/dfdv, Constraint::slack, PositionStats::addVariable) are regenerated from variable.h / constraint.h / block.cpp by cpp2lean on every run and proved equal to posOf / St.dfdv / St.slack / blockPosn of Model/Vpsc.lean (Props/C01Tie.lean)"""
+    import sys
+    from pathlib import Path
+    sys.path.insert(0, str(Path(ROOT) / "tools" / "cpp2lean"))
+    import jobs
+    return jobs.regenerate(["vpsck"], Path(ROOT), Path(REPO))
 
 
 def plan(tier, seed, searching):
